@@ -151,3 +151,86 @@ PROPS["C16"] = dict(
                  "CBMC unwinding assertions are on: the string loops are fully unwound (complete, not bounded)"],
     technique="Kani/CBMC complete enumeration of a finite domain on the real parser and tables, against an independent ITA oracle",
 )
+
+# ---------------------------------------------------------------- geometry (C12, C13, C14, C15, C02, C04)
+KANI.update({
+    "k_wrap_range": dict(props=["C15", "C01"], kind="bounded", bound="|x|,|y| <= 8 (all doubles in that range; site coordinates and table constants stay within 2)",
+                         fn="transform.rs Transform2::{periodic,position,set_position}",
+                         what="bit-precise: periodic(1,-0.5) of any translation with |x|,|y|<=8 lies in [-0.5,0.5) in floats too; linear part and bottom row keep their bits"),
+    "k_shim_transform": dict(props=["C15", "C14", "C12"], kind="bounded", bound="entries in {-1,-1/2,0,1/2,1} (sanity check of the nalgebra shim, not a proof of nalgebra)",
+                             fn="nalgebra 0.22 Transform2*Point2, Transform2*Transform2 through transform.rs", thorough_only=True,
+                             what="the real nalgebra product and point map agree with the shim's matrix algebra on a grid of dyadic entries, bottom row (0,0,w), w in {0,1}"),
+    "k_cell_dof": dict(props=["C08", "C04"], kind="complete", fn="cell.rs Cell2::get_degrees_of_freedom + basis.rs",
+                       what="every family, every bit pattern of length/ratio/angle: number of handles, their bounds ([0.01,len], [0.1,ratio], [pi/6,pi/2]), which cell each writes, parameters without a handle keep their bits, written values stay in range"),
+    "k_cell_from_family": dict(props=["C08", "C04"], kind="complete", fn="cell.rs Cell2::from_family",
+                               what="initial ratio 1, angle pi/3 for Hexagonal and pi/2 otherwise, length as given, family recorded"),
+    "k_clone_cell": dict(props=["C10"], kind="complete", fn="cell.rs impl Clone for Cell2", what="a clone holds equal bits in fresh cells: arbitrary writes through the clone leave the original bit-identical"),
+    "k_clone_site": dict(props=["C10"], kind="complete", fn="site.rs impl Clone for OccupiedSite", what="a cloned site holds equal bits in fresh cells and the same multiplicity"),
+    "k_site_basis": dict(props=["C08"], kind="complete", fn="site.rs OccupiedSite::get_basis", what="handles x,y in [-1/2,1/2], orientation in [0, 2pi/rot]; each writes only its own cell; written values stay in range"),
+    "k_images_0": dict(props=["C14"], kind="bounded", bound="shells = 0, integer lattice (a=1, b=2, cos=0, sin=1)", fn="cell.rs Cell2::periodic_images", what="exact multiset of images"),
+    "k_images_1": dict(props=["C14", "C01"], kind="bounded", bound="shells = 1, integer lattice (a=1, b=2, cos=0, sin=1)", fn="cell.rs Cell2::periodic_images", what="exact multiset of images: each n*A+m*B with |n|,|m|<=1 exactly once, the untranslated one only when asked, orientation unchanged"),
+})
+
+_GEOM_ASSUMPTIONS = [
+    "nalgebra shim (prelude/nalgebra_shim.rs): Point2/Vector2/Translation2/Rotation2/Matrix3/Transform2 specified as 3x3 real matrix algebra incl. the homogeneous divide of Transform<TGeneral>*Point; sanity-checked on the real crate by K:k_shim_transform (thorough tier), not proved",
+    "uninterpreted sin_r/cos_r/sqrt_r/acos_r/pi_r/fmod_r with the axioms listed in coverage.trusted_base (sin^2+cos^2=1, cos(pi/2)=0, fmod = C fmod)",
+    "iterator plumbing (map/flat_map/iproduct/any/sum/fold) is not under contract: closure bodies are proved as slices (rule R13) and `.map(f).map(g)` is assumed to apply g(f(.)) to each element in order",
+    "SharedValue is read through a value shim in these units; writes are proved on the real pointers by Kani (K:k_basis_*)",
+]
+
+PROPS["C12"] = dict(
+    level="other", units=["pairs"], kani=[], lemmas=["seg-witness", "seg-unique", "seg-symmetric", "seg-affine", "disc-symmetric", "disc-meaning", "disc-open"],
+    explanation="Component level, unbounded: Verus proves the real Line2::intersects equals the closed-segment crossing predicate written from the definition (alg_crosses), the real Atom2::intersects "
+                "answers yes when |p-q|^2 < (r1+r2)^2 and no when > (silent at exact tangency, which the property's tolerance allows), and that Mul<Transform2> maps endpoints/centres by the transform and keeps radii. "
+                "z3 lemmas show alg_crosses is 'non-parallel closed segments share a point' (witness + uniqueness), is symmetric under swapping the arguments and invariant under a common invertible affine map; "
+                "the disc predicate is symmetric, isometry-invariant and means open discs meet / closed discs disjoint. Shape level (any pair of components) is iterator plumbing, listed as assumed.",
+    assumptions=_GEOM_ASSUMPTIONS,
+    undecided=["the geometric theorem 'two convex polygons' interiors intersect iff two non-parallel closed edges meet (up to touching)' is about polygons, not code: not proved",
+               "rounding at exactly aligned configurations (Theory M reads floats as reals)",
+               "LineShape::intersects / MolecularShape2::intersects `iproduct!(..).any(..)` plumbing: assumed to be the disjunction over component pairs"],
+)
+PROPS["C13"] = dict(
+    level="other", units=["pairs"], kani=[], lemmas=["lj-r2", "lj-min", "lj-cut", "lj-symmetric-like", "lj-symmetric"],
+    explanation="Verus proves the real LJ2::energy equals the shifted, truncated 12-6 law written from the property (lj_energy: 4 eps (s^6 - s^3) with s = sigma^2/r^2, minus the same at the cutoff when r^2 < cutoff^2, exactly 0 beyond), "
+                "depends on the positions only through |p-q|^2, and that Mul<Transform2> keeps sigma/epsilon/cutoff and maps the position. z3 lemmas: (sigma/r)^6 = (sigma^2/r^2)^3; minimum -eps exactly at (sigma/r)^6 = 1/2; "
+                "the shifted form vanishes at the cutoff; symmetric for like particles. The unconditional symmetry clause is refuted (known finding D9: the body uses self's sigma/epsilon only).",
+    assumptions=_GEOM_ASSUMPTIONS,
+    undecided=["molecule energy = sum over atom pairs (`iproduct!.map.sum` plumbing in LJShape2::energy) is assumed", "LJShape2::from_trimer's map closure (sigma = 2 radius, cutoff 3.5) is not under contract yet"],
+)
+PROPS["C14"] = dict(
+    level="other", units=["geom"], kani=["k_images_0", "k_images_1", "k_shim_transform"], lemmas=["lattice-area"],
+    explanation="Unbounded (Verus, all cell parameters): the real to_cartesian/to_cartesian_point/center map (x,y) to x*A + y*B with A=(a,0), B=(b cos t, b sin t); to_cartesian_isometry and "
+                "to_cartesian_translate keep the linear part and map the translation to C(t) resp. C(t) + n*A + m*B; area = A x B (z3: equals a b sin t >= 0). "
+                "Enumeration of images by the `iproduct!.filter.map` chain is checked by Kani on an exact integer lattice for shells 0 and 1 only — BOUNDED, never counted as proved.",
+    assumptions=_GEOM_ASSUMPTIONS,
+    undecided=["periodic_images enumeration for shells >= 2 (CBMC needs > 10 min at 25+ iterations of nalgebra code): covered only by the V contract of to_cartesian_translate per element", "get_corners (map/collect plumbing)"],
+)
+PROPS["C15"] = dict(
+    level="other", units=["geom"], kani=["k_wrap_range", "k_shim_transform"], lemmas=[],
+    explanation="Unbounded (Verus): the real Transform2::periodic wraps the translation into [offset, offset+period), changes it by whole periods only and leaves the linear part untouched (lemma_wrap over C fmod); "
+                "the real Transform2*Transform2 is the matrix product; the two closure bodies of OccupiedSite::positions (sym*transform, then periodic(1,-0.5)) compose to the property's placement_ok(g_k, site, r) "
+                "(lemma_placement); multiplicity = number of operations. Kani adds the float-level range claim for |x| <= 8 (bounded).",
+    assumptions=_GEOM_ASSUMPTIONS,
+    undecided=["`map.map` plumbing of positions(): that element k of the iterator is closure2(closure1(symmetries[k])) is assumed adapter semantics",
+               "the 2*pi periodicity clause for orientations rests on periodicity of sin/cos (axiom), not on code"],
+)
+PROPS["C02"] = dict(
+    level="other", units=["pairs", "geom"], kani=[], lemmas=["lattice-area"],
+    explanation="Verus proves the arithmetic the score is built from: Cell2::area = A x B = a b sin t; Atom2::area = pi r^2; MolecularShape2::overlap_area = circular-segment formula; circle_overlap = lens of two discs "
+                "(two segments at the radical line) when they overlap, 0 otherwise; from_trimer / circle build the discs at the stated coordinates. The score expression itself (PackedState::score) and the iterator folds "
+                "in area()/total_shapes() are not under contract in this unit yet.",
+    assumptions=_GEOM_ASSUMPTIONS,
+    undecided=["'score <= 1' needs the measure-theoretic fact that N non-overlapping copies of area A fit in a cell of area |AxB| only if N*A <= |AxB|: not code, not proved",
+               "pairwise inclusion-exclusion in MolecularShape2::area is the union area only without triple overlaps / contained discs (known finding D2)",
+               "LineShape::area closure and all sum/fold plumbing"],
+)
+PROPS["C04"] = dict(
+    level="other", units=["geom"], lemmas=["sym-commute"],
+    kani=["k_tables_%s_%d" % (g, k) for g, n in _GROUPS.items() for k in range(n)] + ["k_tables_label_%s" % g for g in _GROUPS] + ["k_cell_dof", "k_cell_from_family"],
+    explanation="Deductive chain: (1) placement k = wrap(g_k * T(site)) with linear part g_k * Rot (Verus, C15 clauses); (2) to_cartesian_isometry keeps the linear part and maps the translation by the cell matrix C (Verus); "
+                "(3) the tables are the ITA general positions with the ITA crystal family (Kani, complete); (4) the cell angle is a free parameter only for Monoclinic cells and non-hexagonal cells start at pi/2 (Kani, complete, all bit patterns) "
+                "so cos t = 0 is invariant for the mirror/glide groups; (5) z3: diag(+-1,+-1) commutes with C when it is +-I or cos t = 0, hence the Cartesian operation (M, C t_g) is an isometry mapping placement k onto placement k' "
+                "with g g_k = g_k' mod lattice (closure proved on the tables under C16).",
+    assumptions=_GEOM_ASSUMPTIONS + ["in floats cos(PI/2) is 6e-17, not 0: the residual shear of a 'rectangular' cell is a rounding effect outside Theory M"],
+    undecided=["`map.map`/`flat_map` plumbing of positions()/relative_positions()", "the composition of steps (1)-(5) is a paper argument (DESIGN §5 C04), each step is machine-checked"],
+)
